@@ -602,7 +602,12 @@ pub fn run(session: &Session) -> i32 {
     // outside as a constant, as a run-time value, as a value of another type or not at all: one statement
     // per input, two per input, and the whole as one input
     {
-        let constructs: [(&str, &[&str]); 18] = [
+        let constructs: [(&str, &[&str]); 22] = [
+            // destructuring: every name of the pattern is declared, from a constant tuple, a computed one and a nested one
+            ("(v, w) := (10, 20); n := v + w;", &["v", "w", "n"]),
+            ("(v, w) := (next(), 20); n := v + w;", &["v", "w", "n"]),
+            ("(w, v) := (1, next()); n := v + w;", &["v", "w", "n"]),
+            ("t := (10, 20); (v, w) := t; n := v + w;", &["t", "v", "w", "n"]),
             // what is called or pulled from has a local of its own spelled like the outer name, and what
             // runs next to it (a loop body, a mapper, a predicate, the rest of the expression) reads the outer one
             ("c := mut 0; it := () -> (bool, int) { v := *c; c += 1; return (v < 3, v); }; n := mut 0; for x in it { n += v + x; };", &["c", "it", "n"]),
@@ -629,10 +634,31 @@ pub fn run(session: &Session) -> i32 {
             json!({"declares": ["next"], "text": "next := () -> int { return 40; };"}),
             json!({"declares": ["src"], "text": "src := (k: mut int) -> int|string { if *k < 2 { return *k + 10; } return \"end\"; };"}),
         ];
+        // the same with the underscore as the name (an identifier like any other)
+        let renamed = |t: &str, name: &str| -> String {
+            let mut out = String::new();
+            let cs: Vec<char> = t.chars().collect();
+            for (i, c) in cs.iter().enumerate() {
+                let word = |k: Option<&char>| k.is_some_and(|c| c.is_alphanumeric() || *c == '_');
+                if *c == 'v' && !word(i.checked_sub(1).and_then(|j| cs.get(j))) && !word(cs.get(i + 1)) {
+                    out.push_str(name);
+                } else {
+                    out.push(*c);
+                }
+            }
+            out
+        };
+        for name in ["v", "_"] {
         for (outer, onames) in outers {
             for (construct, cnames) in constructs {
-                let last = if outer.is_empty() { "(n, 0)" } else { "(n, v)" };
-                let body = [(outer, onames), (construct, cnames), (last, &[] as &[&str])];
+                let (outer, construct) = (renamed(outer, name), renamed(construct, name));
+                let (outer, construct) = (outer.as_str(), construct.as_str());
+                let onames: Vec<String> = onames.iter().map(|n| if *n == "v" { name.to_string() } else { n.to_string() }).collect();
+                let cnames: Vec<String> = cnames.iter().map(|n| if *n == "v" { name.to_string() } else { n.to_string() }).collect();
+                let last = if outer.is_empty() { "(n, 0)".to_string() } else { format!("(n, {name})") };
+                let last = last.as_str();
+                let none: Vec<String> = vec![];
+                let body = [(outer, &onames), (construct, &cnames), (last, &none)];
                 // one statement per input
                 let mut inputs: Vec<Json> = prelude.to_vec();
                 for (text, names) in body.iter().filter(|(t, _)| !t.is_empty()) {
@@ -641,11 +667,12 @@ pub fn run(session: &Session) -> i32 {
                 cases.push(json!({"kind": "repl", "files": {}, "inputs": inputs, "binary": true}));
                 // the outer declaration and the construct in one input
                 let mut inputs: Vec<Json> = prelude.to_vec();
-                let names: Vec<&str> = onames.iter().chain(cnames.iter()).copied().collect();
+                let names: Vec<&String> = onames.iter().chain(cnames.iter()).collect();
                 inputs.push(json!({"declares": names, "text": format!("{outer} {construct}")}));
                 inputs.push(json!({"declares": [], "text": last}));
                 cases.push(json!({"kind": "repl", "files": {}, "inputs": inputs, "binary": true}));
             }
+        }
         }
     }
     // recorded finding: the empty array literal carries the element type `!` wherever it flows, so a later
